@@ -28,7 +28,7 @@ Inductive bkind := KScript | KFn | KMethod | KLambda | KFiber.
 Record body := mkBody {
   b_kind : bkind;
   b_pre : nat;          (* filler statements before anything else *)
-  b_stale : nat;        (* 0: none; 1: a caught `throw` first; 2: a caught built-in failure first *)
+  b_stale : nat;        (* 0: none; 1: a caught `throw` first; 2: a caught VM failure; 3: a caught native failure *)
   b_fin : bool          (* the call / failing statement is wrapped in try { } finally { } *)
 }.
 
@@ -77,7 +77,17 @@ Definition simple_failure (c : nat) : option (string * string * string) :=
   | 18 => Some ("raise_multi();", "TypeError", "boom" ++ nl ++ "bam")
   | 19 => Some ("import " ++ q ++ "bad" ++ q ++ ";", "ImportError",
                 "Error compiling module:" ++ nl ++ "    " ++ bad_msg)
+  | 30 => Some (q ++ "1x2" ++ q ++ ".to_num();", "ValueError", "Unable to parse number from '1x2'.")
+  | 31 => Some (q ++ "x" ++ q ++ ".len(1);", "TypeError", "Expected 0 parameters but found 1.")
   | _ => None
+  end.
+
+(* which of the two sites turns the failure into an exception: the Err arm of call_native (the statement
+   fails inside a native function) or try_handle_error (the VM itself) *)
+Definition site_of_simple (c : nat) : fsite :=
+  match c with
+  | 6 | 9 | 10 | 11 | 12 | 13 | 14 | 15 | 16 | 17 | 18 | 30 | 31 => SiteNative
+  | _ => SiteVm
   end.
 
 (* what is thrown: an instance of a core error class made by the VM for ErrorKind k, an instance of
@@ -91,32 +101,33 @@ Record failure := mkFailure {
   f_prep : list string;        (* statements before the failing one, in the same body *)
   f_stmt : string;             (* the failing statement *)
   f_thrown : thrown;
-  f_by_throw : bool;           (* raised by a `throw` statement (else by the VM / a native) *)
+  f_site : option fsite;       (* None: raised by a `throw` statement; else by the VM / a native *)
+  f_prep_site : fsite;         (* site of the failure caught in the preparation (f_prep_fail) *)
   f_prep_fail : option nat     (* offset in f_prep of a statement that fails and is caught there *)
 }.
 
 Definition failure_of (code arg : nat) : option failure :=
   match code with
   | 20 => Some (mkFailure ["var fz = Fiber.new(|| 1);"; "fz.call();"] "fz.call();"
-                          (TKind "RuntimeError" "Cannot call a finished fiber.") false None)
+                          (TKind "RuntimeError" "Cannot call a finished fiber.") (Some SiteNative) SiteVm None)
   | 21 => None   (* stack overflow: handled separately *)
   | 22 => match simple_failure arg with
           | Some (st, k, ctx) =>
             Some (mkFailure ["var sv = nil;"; "try {"; st; "} catch e {"; "sv = e;"; "}"] "throw sv;"
-                            (TKind k ctx) true (Some 2))
+                            (TKind k ctx) None (site_of_simple arg) (Some 2))
           | None => None
           end
-  | 23 => Some (mkFailure [] ("throw Error.new(" ++ q ++ "base" ++ q ++ ");") (TInstance "Error" "base") true None)
+  | 23 => Some (mkFailure [] ("throw Error.new(" ++ q ++ "base" ++ q ++ ");") (TInstance "Error" "base") None SiteVm None)
   | 24 => Some (mkFailure ["#[constructor(new), derive(ValueError)] class Sub {}"; "var se = Sub.new();";
                            "se.context = " ++ q ++ "sub" ++ q ++ ";"] "throw se;"
-                          (TInstance "Sub" "sub") true None)
-  | 25 => Some (mkFailure [] "throw 7;" (TValue "Num" "7") true None)
-  | 26 => Some (mkFailure [] ("throw " ++ q ++ "s" ++ q ++ ";") (TValue "String" "s") true None)
-  | 27 => Some (mkFailure [] ("throw " ++ q ++ "a\nb" ++ q ++ ";") (TValue "String" ("a" ++ nl ++ "b")) true None)
-  | 28 => Some (mkFailure [] "throw [1, 2];" (TValue "Vec" "[1, 2]") true None)
-  | 29 => Some (mkFailure [] "throw nil;" (TValue "Nil" "nil") true None)
+                          (TInstance "Sub" "sub") None SiteVm None)
+  | 25 => Some (mkFailure [] "throw 7;" (TValue "Num" "7") None SiteVm None)
+  | 26 => Some (mkFailure [] ("throw " ++ q ++ "s" ++ q ++ ";") (TValue "String" "s") None SiteVm None)
+  | 27 => Some (mkFailure [] ("throw " ++ q ++ "a\nb" ++ q ++ ";") (TValue "String" ("a" ++ nl ++ "b")) None SiteVm None)
+  | 28 => Some (mkFailure [] "throw [1, 2];" (TValue "Vec" "[1, 2]") None SiteVm None)
+  | 29 => Some (mkFailure [] "throw nil;" (TValue "Nil" "nil") None SiteVm None)
   | c => match simple_failure c with
-         | Some (st, k, ctx) => Some (mkFailure [] st (TKind k ctx) false None)
+         | Some (st, k, ctx) => Some (mkFailure [] st (TKind k ctx) (Some (site_of_simple c)) SiteVm None)
          | None => None
          end
   end.
@@ -167,7 +178,8 @@ Definition stale_block (s : nat) : list string :=
   match s with
   | 0 => []
   | 1 => ["try {"; "throw 7;"; "} catch e {"; "}"]
-  | _ => ["try {"; "nil();"; "} catch e {"; "}"]
+  | 2 => ["try {"; "nil();"; "} catch e {"; "}"]
+  | _ => ["try {"; q ++ "x" ++ q ++ ".len(1);"; "} catch e {"; "}"]
   end.
 
 Inductive wrap := WNone | WFinally | WCatch (instance : bool).
@@ -221,7 +233,7 @@ Definition the_failure (p : prog) : option failure :=
   if Nat.eqb (p_fail p) OVERFLOW then
     (* the failing body calls itself (a fiber body: the lambda it runs, inside the same fiber) *)
     let k := match b_kind (nth_body p (last_index p)) with KFiber => KLambda | k => k end in
-    Some (mkFailure [] (call_stmt (last_index p) k) overflow_thrown false None)
+    Some (mkFailure [] (call_stmt (last_index p) k) overflow_thrown (Some SiteVm) SiteVm None)
   else failure_of (p_fail p) (p_arg p).
 
 Definition wrap_of (p : prog) (f : failure) (j : nat) : wrap :=
@@ -430,7 +442,8 @@ Definition eval_spec (p : prog) : string :=
 (* eval_mech *)
 
 Definition mech_flags : flags :=
-  mkFlags unwind_clears_error_ip_on_catch unwind_rebases_error_ip_on_frame_drop failure_records_error_ip.
+  mkFlags unwind_clears_error_ip_on_catch unwind_rebases_error_ip_on_frame_drop
+          failure_records_error_ip_vm failure_records_error_ip_native.
 
 Fixpoint nat_range (lo n : nat) : list N :=
   match n with O => [] | S m => N.of_nat lo :: nat_range (S lo) m end.
@@ -462,7 +475,8 @@ Definition stale_ops_at (p : prog) (f : failure) (j extra : nat) : list op :=
   match b_stale (nth_body p j) with
   | 0 => []
   | 1 => [OThrow (pc_of p f j (c_stale c)); OUnwind (depth p f j + extra) true (pc_of p f j (c_stale_catch c))]
-  | _ => [OFail (pc_of p f j (c_stale c)); OUnwind (depth p f j + extra) true (pc_of p f j (c_stale_catch c))]
+  | 2 => [OFail SiteVm (pc_of p f j (c_stale c)); OUnwind (depth p f j + extra) true (pc_of p f j (c_stale_catch c))]
+  | _ => [OFail SiteNative (pc_of p f j (c_stale c)); OUnwind (depth p f j + extra) true (pc_of p f j (c_stale_catch c))]
   end.
 Definition stale_ops (p : prog) (f : failure) (j : nat) : list op := stale_ops_at p f j 0.
 
@@ -479,7 +493,7 @@ Definition prep_ops (p : prog) (f : failure) (n : nat) : list op :=
   let c := content_of p f n in
   (if Nat.eqb (p_fail p) 20 then [OFiberCall (pc_of p f n (c_prep c + 1)) anon_fd; OFiberEnd] else [])
   +++ match f_prep_fail f with
-     | Some o => [OFail (pc_of p f n (c_prep c + o)); OUnwind (depth p f n) true (pc_of p f n (c_prep c + o + 1))]
+     | Some o => [OFail (f_prep_site f) (pc_of p f n (c_prep c + o)); OUnwind (depth p f n) true (pc_of p f n (c_prep c + o + 1))]
      | None => []
      end.
 
@@ -487,8 +501,8 @@ Definition fail_ops (p : prog) (f : failure) (n : nat) : list op :=
   let pc := pc_of p f n (c_action (content_of p f n)) in
   if Nat.eqb (p_fail p) OVERFLOW then
     flat_map (fun k => stale_ops_at p f n k +++ [OCall pc (fd_of p f n)]) (seq 0 (FRAMES_MAX_nat - depth p f n))
-    +++ stale_ops_at p f n (FRAMES_MAX_nat - depth p f n) +++ [OFail pc]
-  else stale_ops p f n +++ prep_ops p f n +++ [if f_by_throw f then OThrow pc else OFail pc].
+    +++ stale_ops_at p f n (FRAMES_MAX_nat - depth p f n) +++ [OFail SiteVm pc]
+  else stale_ops p f n +++ prep_ops p f n +++ [match f_site f with None => OThrow pc | Some st => OFail st pc end].
 
 (* the handlers of the running fiber, innermost first, until one catches *)
 Fixpoint unwind_ops (p : prog) (f : failure) (js : list nat) : list op * bool :=
@@ -535,7 +549,7 @@ Definition eval_mech (p : prog) : string :=
     let '(ops, caught) := mech_ops p f in
     let fd0 := fd_of p f 0 in
     let '(cls, desc, ctx, kind) := mech_thrown (f_thrown f) in
-    let extra := "wf=" ++ show_bool (wf_ops (sinit fd0) ops) ++ ",kc=" ++ show_bool (known_classb (sinit fd0) ops)
+    let extra := "wf=" ++ show_bool (wf_ops (sinit fd0) ops) ++ ",kc=" ++ show_bool (known_classb mech_flags (sinit fd0) ops)
                  ++ ",ops=" ++ sn (List.length ops) in
     if caught then
       match caught_by p f with
@@ -575,6 +589,24 @@ Definition all_w (s : string) : string :=
   let p := prog_of_wire s in render p ++ "#" ++ eval_spec p ++ "#" ++ eval_mech p.
 Definition eval_spec_w (s : string) : string := eval_spec (prog_of_wire s).
 Definition eval_mech_w (s : string) : string := eval_mech (prog_of_wire s).
+
+(* do Spec and Mechanism agree on a program (kind, printed lines, messages; the diagnostic suffix aside)? *)
+Fixpoint has_bar (s : string) : bool :=
+  match s with EmptyString => false | String c r => Ascii.eqb c "|" || has_bar r end.
+Fixpoint before_last_bar (s : string) : string :=
+  match s with
+  | EmptyString => EmptyString
+  | String c r => if Ascii.eqb c "|" && negb (has_bar r) then EmptyString else String c (before_last_bar r)
+  end.
+Definition agreeb (w : string) : bool :=
+  let p := prog_of_wire w in
+  valid_prog p && String.eqb (before_last_bar (eval_spec p)) (before_last_bar (eval_mech p)).
+
+(* directed examples: every recording site (throw / VM / native) failing inside try { } finally { } of the
+   failing call itself and of intermediate calls, after caught exceptions of every site *)
+Definition directed_examples : list string :=
+  ["0 0 0 1;25 0 0"; "0 0 0 1;2 0 0"; "0 0 0 1;30 0 0"; "0 1 3 1;1 0 2 1;16 0 0"; "0 0 1 0;1 1 0 1;2 2 3 1;5 0 0";
+   "0 0 2 1;4 1 1 1;3 0 3 1;31 0 0"; "0 0 0 0;1 0 0 1;22 6 0"; "0 0 0 1;1 0 0 0;0 0 0 1;23 0 0"].
 
 (* compile errors: the first message of compiler::compile for a source given in hex, the side condition
    of compile_error_has_line_partial, and the range check itself *)
